@@ -622,7 +622,7 @@ def levels_check(ctx, prop):
         import zlib
         uniq = [b for b in uniq if b.count("[{") <= 1 or zlib.crc32(b.encode()) % 8 == ctx.seed % 8]
     open(sf, "w").write("\n".join(uniq) + "\n")
-    rc, o = ctx.drv(drv, ["lv", "-scenarios", sf, "-seed", ctx.seed, "-n", 150 if ctx.quick else 2000, "-out", out],
+    rc, o = ctx.drv(drv, ["lv", "-scenarios", sf, "-seed", ctx.seed, "-n", 500 if ctx.quick else 4000, "-out", out],
                     timeout=3400)
     if rc != 0:
         hf = common.hard_failures(o)
